@@ -64,7 +64,7 @@ def run(index, tier="quick", seed=0) -> Result:
         fn = index.effective_prop(P, member).getter
         where = f"{fn.file}:{fn.lineno}"
         try:
-            ret, ev = evaluate(fn)
+            ret, ev = evaluate(fn, index=index)
         except NotInFragment as e:
             res.not_in_fragment.append(f"PAR Polygon.{member}: {e}")
             continue
